@@ -218,6 +218,10 @@ func replayBatchFromChan(clck clock.Clock, batches <-chan edge.BufferedBatchMess
 				points[i].SetTime(points[i].Time().Add(diff).UTC())
 			}
 			lastTime = points[len(points)-1].Time()
+			// Shift the batch time like the points so that all timestamps keep their relative distance.
+			if tmax := b.Begin().Time(); !tmax.IsZero() {
+				b.Begin().SetTime(tmax.Add(diff).UTC())
+			}
 		} else {
 			lastTime = points[len(points)-1].Time().Add(diff).UTC()
 		}
